@@ -159,28 +159,8 @@ Proof. intros Hb. unfold all_lt. induction n; cbn; constructor; auto. lia. Qed.
 Lemma count_ge_app t l1 l2 : count_ge t (l1 ++ l2) = count_ge t l1 + count_ge t l2.
 Proof. unfold count_ge. rewrite filter_app, app_length. lia. Qed.
 
-Theorem cexpand_spec c ns :
-  Inv c -> Inv (cexpand c ns) /\
-  cdat (cexpand c ns) = cdat c ++ repeat 0 (ns - length (cdat c)).
-Proof.
-  intros HI. unfold cexpand. destruct (Nat.ltb_spec (length (cdat c)) ns) as [Hlt|Hge].
-  - split; [|reflexivity].
-    assert (Hz : forall t, 0 < t -> count_ge t (repeat 0 (ns - length (cdat c))) = 0).
-    { intros t Ht. apply count_ge_zero. now apply all_lt_repeat0. }
-    destruct HI as [(Hw & Ha & H9 & H17)|[(Hw & Ha & H9 & H17)|(Hw & Ha & H9 & H17)]].
-    + left. cbn. repeat split; auto. apply all_lt_app; [exact Ha|apply all_lt_repeat0; lia].
-    + right; left. cbn. repeat split; auto.
-      * apply all_lt_app; [exact Ha|apply all_lt_repeat0; lia].
-      * rewrite count_ge_app, Hz by lia. lia.
-    + right; right. cbn. repeat split; auto.
-      * apply all_lt_app; [exact Ha|apply all_lt_repeat0; lia].
-      * rewrite count_ge_app, Hz by lia. lia.
-      * rewrite count_ge_app, Hz by lia. lia.
-  - split; [exact HI|]. replace (ns - length (cdat c))%nat with 0%nat by lia. cbn. now rewrite app_nil_r.
-Qed.
-
-(** ** shrinking: the dropped elements must be unused (count 0), as they are
-    for the handles above the last used one *)
+(** ** narrowing: a data list [d] that satisfies the invariant's bounds and
+    whose large entries are counted by c09/c17 *)
 Lemma in_firstn (x : Z) n l : In x (firstn n l) -> In x l.
 Proof.
   revert n; induction l as [|y l IH]; intros [|n] H; cbn in *; try contradiction.
@@ -213,40 +193,72 @@ Proof.
   constructor; [lia|]. apply IH; [exact Hc|exact Ht].
 Qed.
 
+(** [d] is the new data: within the current width's bounds, with the same
+    numbers of large entries as the old data *)
+Lemma cnarrow_spec c d :
+  Inv c ->
+  (forall b, all_lt b (cdat c) -> 0 < b -> all_lt b d) ->
+  (forall t, 0 < t -> count_ge t d = count_ge t (cdat c)) ->
+  Inv (cnarrow c d) /\ cdat (cnarrow c d) = d.
+Proof.
+  intros HI Hb Hc. unfold cnarrow.
+  destruct HI as [(Hw & Ha & H9 & H17)|[(Hw & Ha & H9 & H17)|(Hw & Ha & H9 & H17)]]; rewrite Hw; cbn [Z.eqb Pos.eqb].
+  - split; [|reflexivity]. left. cbn. repeat split; auto. apply Hb; [exact Ha|lia].
+  - destruct (Z.ltb_spec 0 (c09 c)) as [Hp|Hn].
+    + split; [|reflexivity]. right; left. cbn. repeat split; auto.
+      * apply Hb; [exact Ha|lia].
+      * rewrite Hc by lia. exact H9.
+    + assert (H0 : count_ge 256 d = 0) by (rewrite Hc by lia; pose proof (count_ge_nonneg 256 (cdat c)); lia).
+      assert (Hs : all_lt 256 d).
+      { eapply count_zero_all_lt; [apply (Hb 65536 Ha); lia|exact H0|lia]. }
+      cbn [cdat]. rewrite (map_mod_id 256 _ Hs). split; [|reflexivity].
+      pose proof (count_ge_nonneg 256 (cdat c)).
+      left. cbn. repeat split; auto. lia.
+  - destruct (Z.ltb_spec 0 (c17 c)) as [Hp|Hn].
+    + split; [|reflexivity]. right; right. cbn. repeat split; auto.
+      * apply Hb; [exact Ha|lia].
+      * rewrite Hc by lia. exact H9.
+      * rewrite Hc by lia. exact H17.
+    + assert (H0 : count_ge 65536 d = 0) by (rewrite Hc by lia; pose proof (count_ge_nonneg 65536 (cdat c)); lia).
+      destruct (Z.ltb_spec 0 (c09 c)) as [Hp9|Hn9].
+      * assert (Hs : all_lt 65536 d).
+        { eapply count_zero_all_lt; [apply (Hb 4294967296 Ha); lia|exact H0|lia]. }
+        cbn [cdat]. rewrite (map_mod_id 65536 _ Hs). split; [|reflexivity].
+        pose proof (count_ge_nonneg 65536 (cdat c)).
+        right; left. cbn. repeat split; auto; [|lia].
+        rewrite Hc by lia. exact H9.
+      * assert (H09 : count_ge 256 d = 0) by (rewrite Hc by lia; pose proof (count_ge_nonneg 256 (cdat c)); lia).
+        assert (Hs : all_lt 256 d).
+        { eapply count_zero_all_lt; [apply (Hb 4294967296 Ha); lia|exact H09|lia]. }
+        cbn [cdat]. rewrite (map_mod_id 256 _ Hs). split; [|reflexivity].
+        pose proof (count_ge_nonneg 256 (cdat c)). pose proof (count_ge_nonneg 65536 (cdat c)).
+        left. cbn. repeat split; auto; lia.
+Qed.
+
+Theorem cexpand_spec c ns :
+  Inv c -> Inv (cexpand c ns) /\
+  cdat (cexpand c ns) = cdat c ++ repeat 0 (ns - length (cdat c)).
+Proof.
+  intros HI. unfold cexpand. destruct (Nat.ltb_spec (length (cdat c)) ns) as [Hlt|Hge].
+  - apply cnarrow_spec; [exact HI| |].
+    + intros b Hab Hb0. apply all_lt_app; [exact Hab|now apply all_lt_repeat0].
+    + intros t Ht. rewrite count_ge_app.
+      assert (count_ge t (repeat 0 (ns - length (cdat c))) = 0); [|lia].
+      apply count_ge_zero. now apply all_lt_repeat0.
+  - split; [exact HI|]. replace (ns - length (cdat c))%nat with 0%nat by lia. cbn. now rewrite app_nil_r.
+Qed.
+
+(** ** shrinking: the dropped elements must be unused (count 0), as they are
+    for the handles above the last used one *)
 Theorem cshrink_spec c ns :
   Inv c -> Forall (fun v => v = 0) (skipn ns (cdat c)) ->
   Inv (cshrink c ns) /\ cdat (cshrink c ns) = firstn ns (cdat c).
 Proof.
   intros HI Hz. unfold cshrink. destruct (Nat.ltb_spec ns (length (cdat c))) as [Hlt|Hge].
   2:{ split; [exact HI|]. now rewrite firstn_all2 by lia. }
-  destruct HI as [(Hw & Ha & H9 & H17)|[(Hw & Ha & H9 & H17)|(Hw & Ha & H9 & H17)]]; rewrite Hw; cbn [Z.eqb Pos.eqb].
-  - split; [|reflexivity]. left. cbn. repeat split; auto. now apply all_lt_firstn.
-  - destruct (Z.ltb_spec 0 (c09 c)) as [Hp|Hn].
-    + split; [|reflexivity]. right; left. cbn. repeat split; auto.
-      * now apply all_lt_firstn.
-      * rewrite count_ge_firstn by (auto; lia). exact H9.
-    + assert (H0 : count_ge 256 (cdat c) = 0) by (pose proof (count_ge_nonneg 256 (cdat c)); lia).
-      assert (Hs : all_lt 256 (firstn ns (cdat c))).
-      { apply all_lt_firstn. eapply count_zero_all_lt; eauto. lia. }
-      cbn [cdat]. rewrite (map_mod_id 256 _ Hs). split; [|reflexivity].
-      left. cbn. repeat split; auto. lia.
-  - destruct (Z.ltb_spec 0 (c17 c)) as [Hp|Hn].
-    + split; [|reflexivity]. right; right. cbn. repeat split; auto.
-      * now apply all_lt_firstn.
-      * rewrite count_ge_firstn by (auto; lia). exact H9.
-      * rewrite count_ge_firstn by (auto; lia). exact H17.
-    + assert (H0 : count_ge 65536 (cdat c) = 0) by (pose proof (count_ge_nonneg 65536 (cdat c)); lia).
-      destruct (Z.ltb_spec 0 (c09 c)) as [Hp9|Hn9].
-      * assert (Hs : all_lt 65536 (firstn ns (cdat c))).
-        { apply all_lt_firstn. eapply count_zero_all_lt; eauto. lia. }
-        cbn [cdat]. rewrite (map_mod_id 65536 _ Hs). split; [|reflexivity].
-        right; left. cbn. repeat split; auto; [|lia].
-        rewrite count_ge_firstn by (auto; lia). exact H9.
-      * assert (H09 : count_ge 256 (cdat c) = 0) by (pose proof (count_ge_nonneg 256 (cdat c)); lia).
-        assert (Hs : all_lt 256 (firstn ns (cdat c))).
-        { apply all_lt_firstn. eapply count_zero_all_lt; eauto. lia. }
-        cbn [cdat]. rewrite (map_mod_id 256 _ Hs). split; [|reflexivity].
-        left. cbn. repeat split; auto; lia.
+  apply cnarrow_spec; [exact HI| |].
+  - intros b Hab _. now apply all_lt_firstn.
+  - intros t Ht. now apply count_ge_firstn.
 Qed.
 
 Lemma Inv_init : Inv ctr_init.
